@@ -112,13 +112,21 @@ def indent_measure(ctx, res, rule):
     cands = [n for n in T.nodes(b["tree"], "mcall") if n["name"] in ("unwrap_or", "map_or", "unwrap_or_default")
              and any(T.short_path(T.callee(x) or "").endswith("find_next_char_pos") for x in T.nodes(n, "call"))
              and any(T.short_path(T.callee(x) or "").endswith("find_prev_line_break_pos") for x in T.nodes(n, "call"))]
+    whole = None
     if len(cands) != 1:
-        res.cannot(rule, fn, "indent-measure", "the indentation measurement (prev line break -> first non-blank) was not found as one expression", loc)
-        return
+        if fn.endswith("get_indent_len"):
+            whole = b            # written with statements (let-else / match): the function as a whole is the measurement
+        else:
+            res.cannot(rule, fn, "indent-measure", "the indentation measurement (prev line break -> first non-blank) was not found as one expression", loc)
+            return
     I = A.Interp(P)
     I.lazy_locals = True
     try:
-        outs = I.explore(lambda J: J.ev(cands[0], {}))
+        if whole is not None:
+            outs = I.explore(lambda J: J.call_fn_body(whole, [A.Sym(p_["pat"].get("name") or "p%d" % i) for i, p_ in enumerate(whole["params"])]))
+            cands = [whole["tree"]]
+        else:
+            outs = I.explore(lambda J: J.ev(cands[0], {}))
     except A.Cannot as e:
         res.cannot(rule, fn, "indent-measure", str(e), loc)
         return
